@@ -44,6 +44,16 @@ def handle : List String → String
       let o := readBodyFrom (logged log) (setup (logged log) c) ps
       encRes o.result ++ " " ++ encLists o.outs ++ " " ++ encRem (remaining log o.final)
     | _, _, _ => "bad-arg"
+  | ["resp", e, pieces, log] =>
+    -- one response of a sequence read through one Stream: by `sequence_is_per_response` the
+    -- decoder left by the previous response is irrelevant, so each response is replayed over its own log
+    let e? : Option (Option Str) := if e == "None" then some none
+      else if e.startsWith "=" then (decList? (e.drop 1).toString).map some else none
+    match e?, decLists? pieces, decLog? log with
+    | some enc, some ps, some log =>
+      let o := readBodyFrom (logged log) (setupDecompressor (logged log) .none enc) ps
+      encRes o.result ++ " " ++ encLists o.outs ++ " " ++ encRem (remaining log o.final)
+    | _, _, _ => "bad-arg"
   | ["gzipw", pieces, log] =>
     match decLists? pieces, decLog? log with
     | some ps, some log => encRes (gzipRunFrom (logged log) (GzipSt.new _) ps)
